@@ -6,6 +6,7 @@ THEOREMS = ['unflatten_flatten', 'flatten_concatenates_in_order', 'missing_list_
             'num_gives_lengths', 'local_index_counts_from_zero', 'offsets_are_running_sums', 'num_refines_spec',
             'local_index_refines_spec', 'value_has_layout_length', 'flatten_refines_spec_partial',
             'flatten_axis1_refines_spec_partial', 'flatten_level_invariant', 'inner_offsets_cut_back']
+PY_HALF = True     # harness/pyhalves.py: the Python-layer functions of this property under pyshim
 RULE = ('value-first random layouts x (num | localindex | flatten) x axis (positive, negative, some out of range); '
         'non-trivial = the input has >= 1 non-empty list and the operation succeeded; distinct by case text')
 ASSUMPTIONS = ['types containing unions are outside the specified fragment (skipped, counted)',
